@@ -397,20 +397,25 @@ def prove_in_callers(prog, b):
     try:
         known = _known_functions()
         sites = panics.sites_of(b)
-        if not known or b.path in known or b.crate not in ("stun_rs", "stun_agent"):
+        target = b                      # the function whose callers give the context: a closure belongs to its function
+        if b.kind == "Closure":
+            op_ = re.sub(r"(::\{closure#\d+\})+$", "", b.path)
+            target = next((x for x in prog.bodies.values() if x.path == op_), None)
+        if target is None or not known or target.path in known or b.crate not in ("stun_rs", "stun_agent"):
             res = (False, 0, "not a new helper")
-        elif b.is_public or b.kind not in ("Fn", "AssocFn"):
+        elif target.is_public or target.kind not in ("Fn", "AssocFn"):
             res = (False, 0, "public or not a plain function: callers unknown")
         elif any(s_.kind not in PROVABLE_KINDS for s_ in sites):
             res = (False, 0, "has sites of kinds %s" % sorted({s_.kind for s_ in sites} - PROVABLE_KINDS))
-        elif _fn_value_uses(prog, b.key):
+        elif _fn_value_uses(prog, target.key):
             res = (False, 0, "used as a function value")
         else:
             callers = {}
             for cb in prog.bodies.values():
                 for cs in cb.calls():
-                    if any(x.key == b.key for x in prog.callees(cs)):
+                    if any(x.key == target.key for x in prog.callees(cs)):
                         callers[cb.key] = cb
+            callers.pop(target.key, None)
             callers.pop(b.key, None)
             if not callers:
                 res = (False, 0, "no caller in the workspace")
